@@ -8,11 +8,6 @@ set_option linter.unusedSimpArgs false
 set_option linter.unusedVariables false
 namespace Fsic.Heap
 
-def refsBelow (n : Nat) : List (String × Val) → Bool
-  | [] => true
-  | (_, .ref c) :: ss => decide (c < n) && refsBelow n ss
-  | (_, .imm _) :: ss => refsBelow n ss
-
 theorem refsBelow_sound {n : Nat} : ∀ {ss : List (String × Val)}, refsBelow n ss = true →
     ∀ k c, (k, Val.ref c) ∈ ss → c < n := by
   intro ss
@@ -33,29 +28,15 @@ theorem refsBelow_sound {n : Nat} : ∀ {ss : List (String × Val)}, refsBelow n
       · cases h1; exact hb.1
       · exact ih hb.2 k c h1
 
-def wfB (h : Heap) : Bool := h.all fun o => refsBelow h.length o.slots
-
 theorem wf_of_check {h : Heap} (hb : wfB h = true) : WF h := by
   intro l o k c ho hm
   have := List.all_eq_true.mp hb o (List.mem_of_getElem? ho)
   exact refsBelow_sound this k c hm
 
-def noRefs (ss : List (String × Val)) : Bool := refsBelow 0 ss
-
 theorem noRefs_sound {ss : List (String × Val)} (hb : noRefs ss = true) : ∀ k c, (k, Val.ref c) ∉ ss := by
   intro k c hm
   have := refsBelow_sound hb k c hm
   omega
-
-/-- Every class-level attribute that is an object holds immutable entries only. -/
-def classOKB (h : Heap) (cd : ClassDesc) : Bool :=
-  decide (cd.attrs < h.length) &&
-  match h[cd.attrs]? with
-  | none => true
-  | some a => a.slots.all fun kv =>
-    match getObj h kv.2 with
-    | none => true
-    | some o => noRefs o.slots
 
 theorem classOK_of_check {h : Heap} {cd : ClassDesc} (hb : classOKB h cd = true) : ClassOK h cd := by
   simp only [classOKB, Bool.and_eq_true, decide_eq_true_eq] at hb
@@ -73,27 +54,6 @@ theorem classOK_of_check {h : Heap} {cd : ClassDesc} (hb : classOKB h cd = true)
       have := List.all_eq_true.mp hb.2 (k, v) (lookup_mem _ _ _ hl)
       simp only [ho] at this
       exact noRefs_sound this
-
-def keysOf (o : Obj) : List String := o.slots.map Prod.fst
-
-/-- The per-instance conditions of `WorldOK2`. -/
-def instOKB (cs : List ClassDesc) (h : Heap) (o : Obj) : Bool :=
-  match o.kind with
-  | .inst ci =>
-    decide (keysOf o).Nodup &&
-    (match getObj h ((o.slots.lookup "submodels").getD (.imm .none)) with
-      | none => true
-      | some d => decide (d.kind = .dict)) &&
-    (match cs[ci]? with
-      | none => true
-      | some cd =>
-        (decide (cd.base = .container) ||
-          (decide ("endogenous" ∈ keysOf o) && decide ("check" ∈ keysOf o))) &&
-        (ctorKeys cd (modelNames h cd)).all fun k => decide (k ∈ keysOf o))
-  | _ => true
-
-def worldOK2B (cs : List ClassDesc) (h : Heap) : Bool :=
-  wfB h && cs.all (classOKB h) && h.all (instOKB cs h)
 
 theorem worldOK2_of_check {cs : List ClassDesc} {h : Heap} (hb : worldOK2B cs h = true) : WorldOK2 cs h := by
   simp only [worldOK2B, Bool.and_eq_true] at hb
@@ -123,9 +83,6 @@ theorem worldOK2_of_check {cs : List ClassDesc} {h : Heap} (hb : worldOK2B cs h 
     have := inst l o ho
     simp only [instOKB, hk, hd, Bool.and_eq_true, decide_eq_true_eq] at this
     exact this.1.2
-
-/-- All steps of a history are local (create no reference to an object outside the root's own reach). -/
-def stepsLocal (steps : List Step) : Bool := steps.all Step.isLocal
 
 theorem stepsLocal_sound {steps : List Step} (hb : stepsLocal steps = true) : ∀ s, s ∈ steps → s.isLocal = true :=
   fun s hs => List.all_eq_true.mp hb s hs
